@@ -14,6 +14,16 @@ SPECS = [
                              "S() == S0() + 'A<p><b>'"]},
              '*': {'ensures': ["raised('e1')"]}},
          serves=['C19']),
+    dict(id='S-Deferred-empty',
+         # an invalid expression whose reported token is the EMPTY string (tal:content="")
+         text='A<p tal:condition="e1"><b tal:content=""/></p>B', options={'strict': False},
+         ensures=["not bool(val(1))", "S() == S0() + 'AB'", "evals(1) == 1"],
+         raises={
+             'ExpressionError': {
+                 'when': "bool(val(1))",
+                 'ensures': ["text(exc.token) == ''", "token_now() == exc.token.pos"]},
+             '*': {'ensures': ["raised('e1')"]}},
+         serves=['C19', 'C12']),
     dict(id='S-Deferred-twice',
          text='A<p tal:condition="e1"><b tal:content="???"/></p><i tal:condition="e2"><b tal:content="???"/></i>B',
          options={'strict': False},
